@@ -38,6 +38,7 @@ ImplOf(e) ==
   CASE e.a = "AppBegin" -> AppBegin
     [] e.a = "RolBegin" -> RolSplit
     [] e.a = "SetHW" -> DoSetHW(e.args.h)
+    [] e.a = "SetHW2" -> DoSetHW2(e.args.h1, e.args.h2)
     [] e.a = "TogBegin" -> TogStore(e.args.b)
     [] e.a = "NewReader" -> DoNewReader(e.args.r, e.args.s)
     [] e.a = "Step" ->
@@ -63,6 +64,9 @@ TraceNext ==
              /\ Chk(P_RoEndRun, "P", e, "C03_RoEnd")
              /\ Chk(P_Quiet', "P", e, "C03_Quiescent")
         ELSE /\ Chk(P_HW, "P", e, "C03_HWMonotone")
+             /\ Chk(CASE e.a = "SetHW" -> P_HWSet({e.args.h})
+                      [] e.a = "SetHW2" -> P_HWSet({e.args.h1, e.args.h2})
+                      [] OTHER -> TRUE, "P", e, "C03_HWMonotone")
              /\ Chk(P_Del, "P", e, "C03_Delivery")
              /\ Chk(P_NoDeath, "P", e, "C03_ReaderFailed")
              /\ Chk(P_RoEnd, "P", e, "C03_RoEnd")
